@@ -15,7 +15,7 @@ DESIGN_REF = "3/C10"
 RULE = (
     "Rule-based state machine over up to 4 timeline slots, each history executed in its own freshly started interpreter (so a "
     "history's outcome depends on that history alone and a shrunk history replays): construct(slot, spec, back-end) (own deep copy of the data, options "
-    "without a 'scale' key or with its own fresh scale object), export(slot), export_again(slot). Every export must be "
+    "without a 'scale' key or with its own fresh scale object, or no options at all: options=None or {}), export(slot), export_again(slot). Every export must be "
     "byte-identical to the export of the same spec alone in a freshly started interpreter (one subprocess per reference, cached "
     "per spec) and to the timeline's own previous export. Non-trivial: the history exports a timeline after another timeline with "
     "a different data domain was constructed; distinct = distinct history hash."
